@@ -159,8 +159,26 @@ func stress(spec string) string {
 						report("list-error")
 					}
 				case 1: // in-process caller of the shared agent (the wire protocol never reaches Signers)
-					if _, err := y.Signers(); err != nil {
+					ss, err := y.Signers()
+					if err != nil {
 						report("signers-error")
+					} else if len(ss) > 0 {
+						// … and signs with one of the signers it was given, over data only this goroutine
+						// knows (a signer whose certificate was purged meanwhile may fail; it may not
+						// receive another request's reply)
+						func() {
+							defer func() {
+								if r := recover(); r != nil {
+									report("mixup:signer-panic:" + hx.HexS(fmt.Sprint(r)))
+								}
+							}()
+							sg := ss[g.Intn(len(ss))]
+							data := []byte(fmt.Sprintf("signer-g%d-op%d", gi, i))
+							sig, err := sg.Sign(rand.Reader, data)
+							if err == nil && sg.PublicKey().Verify(data, sig) != nil {
+								report("mixup:signer")
+							}
+						}()
 					}
 				case 2: // sign with the shared base key over data only this goroutine knows
 					data := []byte(fmt.Sprintf("g%d-op%d", gi, i))
